@@ -36,3 +36,5 @@ open Bpmn.Props.C01 Bpmn.Props.EngineCurrent Bpmn.Props.C01Conformance
 #print axioms Bpmn.Props.C01FragmentCurrent.current_repaired
 #print axioms Bpmn.Props.C01FragmentCurrent.current_noIncl_conformance
 #print axioms Bpmn.Props.C01FragmentCurrent.current_noIncl_never_deviates
+#print axioms Bpmn.Props.C01Fragment.throwFuse_hypothesis_needed
+#print axioms Bpmn.Props.EngineCurrent.current_throwPasses_ok
